@@ -490,7 +490,7 @@ func TestCheck(t *testing.T) {
 	// random longer histories
 	for _, a := range algos {
 		a := a
-		r.Group("random-"+a, r.Pick(120, 6000), func(i int, rng *report.Rand) {
+		r.Group("random-"+a, r.Pick(60, 6000), func(i int, rng *report.Rand) {
 			n := 5 + rng.Intn(21)
 			evs := make([]int, n)
 			for k := range evs {
